@@ -375,6 +375,9 @@ fn err_name(e: &rssl_preprocess::PreprocessError) -> String {
         E::EndIfNotMatched => "EndIfNotMatched".into(),
         E::UnknownPragma(_) => "UnknownPragma".into(),
         E::PragmaOnceInUnknownFile => "PragmaOnceInUnknownFile".into(),
+        // variants added to the implementation after this harness was written (keeps the harness building)
+        #[allow(unreachable_patterns)]
+        _ => "OtherPreprocessError".into(),
     }
 }
 
